@@ -52,7 +52,14 @@ uint32_t xorshift128(struct xorshift128_state *state)
 	return state->x[0] = t ^ s ^ (s >> 19);
 }
 
-uint32_t XOR128_SEED = 0;
+/* The generator state is per thread: worker threads seed and draw their own
+ * streams (cross validation, y-scrambling, ensemble models), so a seed set in
+ * one thread must never be consumed or overwritten by another one. */
+#if defined(_MSC_VER)
+__declspec(thread) uint32_t XOR128_SEED = 0;
+#else
+__thread uint32_t XOR128_SEED = 0;
+#endif
 
 void srand_(uint32_t seed)
 {
